@@ -91,7 +91,7 @@ def run_shard(prop: str, tier: str, seed: int, shard: int, nshards: int, out_pat
         try:
             res = mod.run_case(params)
         except BaseException as exc:  # noqa  (harness failure: never a violation)
-            if isinstance(exc, KeyboardInterrupt):
+            if isinstance(exc, KeyboardInterrupt) and type(exc).__name__ not in ('WallClockWatchdog', 'VirtualBudgetExceeded'):
                 raise
             res = new_result(idx)
             res['inconclusive'] = 'harness exception: ' + ''.join(
@@ -159,6 +159,9 @@ def run_check(prop: str, tier: str, seed: int, jobs: int) -> int:
     tmpdir = tempfile.mkdtemp(prefix=f'vf-{prop}-')
     procs = []
     env = dict(os.environ)
+    # a shard stops taking new cases at 80 % of the time it is given and writes what it has (violations included);
+    # the rest of its cases count as inconclusive - a shard that has to be killed would lose everything
+    env.setdefault('VERIF_SHARD_BUDGET', str(int(shard_timeout * 0.8)))
     for i in range(nshards):
         out = os.path.join(tmpdir, f'shard{i}.json')
         cmd = [sys.executable, '-m', 'vf.runner', prop, '--tier', tier, '--seed', str(seed),
@@ -293,7 +296,14 @@ def run_check(prop: str, tier: str, seed: int, jobs: int) -> int:
     os.makedirs(EVIDENCE_DIR, exist_ok=True)
     with open(os.path.join(EVIDENCE_DIR, f'{prop}.json'), 'w') as fh:
         json.dump(evidence, fh, indent=1, default=str)
-    _validate_evidence(evidence)
+    try:
+        _validate_evidence(evidence)
+    except Exception as exc:  # noqa
+        if evidence['verdict'] == 'held':
+            raise
+        # e.g. every shard died (evaluations == 0): the run is inconclusive / violated anyway; say so instead of
+        # ending in a traceback
+        print(f'NOTE evidence file does not validate ({type(exc).__name__}: {str(exc).splitlines()[0][:120]})')
 
     for ln in lines:
         print(ln)
